@@ -236,3 +236,91 @@ Example ex_lineage_inherit : forall wp wc,
   T_ResponseMeta_cut (T_subQueryLineage_parent (go_subQueryLineage_inherit l)) = mk_T_responseCut 30 9 /\
   go_subQueryLineage_inherit (go_subQueryLineage_inherit l) = go_subQueryLineage_inherit l.
 Proof. intros wp wc. cbn. split; reflexivity. Qed.
+
+(* ------------------------------------------------------ a sub-query answered from the cache *)
+
+(* A sub-query of the chase that is answered from a stored entry e runs under its own request tree, which the hit
+   binds to e's lifetime (AHit: boundRequestToEntryLifetime).  When the loop inherits that sub-query, what tree p
+   admits afterwards carries everything e was learned through and ends no later than e itself - whatever the
+   other sub-queries were, wherever in the loop this one came *)
+Lemma hit_hop_lemma : forall fx depth p hops st tree idx e h key ttl now,
+  nth_error (st_ans st) idx = Some e ->
+  (forall h', In h' hops -> h_tree h' <> p) ->
+  In h (chase_used depth hops) -> h_tree h = tree -> chase_inherits h = true ->
+  match st_ans (step fx (AStore p key ttl now) (chase fx depth p hops (step fx (AHit tree idx) st))) with
+  | e' :: _ => incl (ae_lin e) (ae_lin e') /\ ae_end e' <= ae_end e
+  | [] => False
+  end.
+Proof.
+  intros fx depth p hops st tree idx e h key ttl now He Hp Hin Ht Hinh.
+  pose proof (chase_admission_lemma fx depth p hops (step fx (AHit tree idx) st) key ttl now Hp) as H.
+  destruct (st_ans (step fx (AStore p key ttl now) (chase fx depth p hops (step fx (AHit tree idx) st)))) as [|e' r];
+    [exact H|].
+  destruct H as [_ H]. specialize (H h Hin Hinh). rewrite Ht in H. destruct H as [Hl Hc].
+  cbn [step] in Hl, Hc. rewrite He in Hl, Hc. rewrite note_meta_same in Hl, Hc. cbn [mt_lin mt_cut] in Hl, Hc.
+  split.
+  - intros x Hx. apply Hl. apply in_or_app. left. exact Hx.
+  - assert (Hb : cut_le (bound_cut (mt_cut (st_meta st tree)) (Some (ae_bound e, []))) (ae_bound e)).
+    { apply bound_cut_le_r. unfold cut_le. apply Z.le_refl. }
+    destruct (bound_cut (mt_cut (st_meta st tree)) (Some (ae_bound e, []))) as [[tb kb]|] eqn:E; unfold cut_le in Hb; [|contradiction].
+    specialize (Hc tb eq_refl). rewrite ae_bound_end in Hb. lia.
+Qed.
+
+(* non-vacuity: a three-zone chain ending in a NODATA whose denial lives 30 s while every lease runs for hours: the
+   reply of the middle leg ends in an alias, so the outer loop asks the final name again, is answered from the
+   stored denial and inherits it - the outer entry ends with the denial's 30 s (without that second sub-query it
+   would end with the shortest lease, one hour) *)
+Example ex_hit_hop :
+  let s := 1000000000 in
+  let rf i z srv ttl := ARefer i (mk_ref z srv true ttl None true 0 false 0 [] false true true 0) in
+  let st := run code_fx [ASeed 0 0 [1;10;5]%N false 0; rf 0%N [1%N] 1%N 172800; rf 0%N [1;10]%N 2%N 172800;
+                         ASeed 1 1 [1;11;5]%N false 0; rf 1%N [1;11]%N 3%N 3600;
+                         ASeed 2 2 [1;12;5]%N false 0; rf 2%N [1;12]%N 4%N 7200;
+                         AStore 2 3 (30 * s) 0] st_init in
+  let st := chase code_fx chase_depth 1 [mk_hop 2 false true false false false] st in
+  let st := step code_fx (AStore 1 2 (86400 * s) 0) st in
+  let outer hops := map ae_end (firstn 1 (st_ans (step code_fx (AStore 0 1 (86400 * s) 0)
+                      (chase code_fx chase_depth 0 hops (step code_fx (AHit 100 1) st))))) in
+  outer [mk_hop 1 false true false false true; mk_hop 100 false true false false false] = [30 * s] /\
+  outer [mk_hop 1 false true false false false] = [3600 * s].
+Proof. vm_compute. split; reflexivity. Qed.
+
+(* ------------------------------------------------------ nesting *)
+
+(* The sub-query for an alias target is a full request of its own: its tree may have run a chase itself, may have
+   been bound to stored entries, may have descended through any delegations - all of that is in its sink by the
+   time it replies.  Whatever a sub-query's tree c holds at that point (stated as: it holds everything some tree d
+   held in some earlier state st0 - its lineage and every bound on its cut), the loop that inherits c hands on to
+   tree p, and from there to what p admits.  By induction over the nesting depth this gives, for alias chains of
+   any depth with loops of any length at every level: an admitted reply carries the lineage and ends within the cut
+   of every request tree that fed it through a run of inherited sub-queries. *)
+Lemma nested_chase_lemma : forall fx depth p hops st st0 d h key ttl now,
+  (forall h', In h' hops -> h_tree h' <> p) ->
+  In h (chase_used depth hops) -> chase_inherits h = true ->
+  meta_ext (st_meta st0 d) (st_meta st (h_tree h)) ->
+  meta_ext (st_meta st0 d) (st_meta (chase fx depth p hops st) p) /\
+  match st_ans (step fx (AStore p key ttl now) (chase fx depth p hops st)) with
+  | e :: _ => incl (mt_lin (st_meta st0 d)) (ae_lin e) /\
+              (forall v, cut_time (mt_cut (st_meta st0 d)) = Some v -> ae_end e <= v)
+  | [] => False
+  end.
+Proof.
+  intros fx depth p hops st st0 d h key ttl now Hp Hin Hinh Hext.
+  assert (E : meta_ext (st_meta st0 d) (st_meta (chase fx depth p hops st) p)).
+  { eapply meta_ext_trans; [exact Hext|]. apply chase_takes; assumption. }
+  split; [exact E|]. apply store_of_ext. exact E.
+Qed.
+
+(* a sub-query that is not inherited leaves tree p as it was; and the chase never touches another tree *)
+Lemma chase_frame_lemma : forall fx depth p hops st,
+  (forall t, t <> p -> st_meta (chase fx depth p hops st) t = st_meta st t) /\
+  ((forall h, In h (chase_used depth hops) -> chase_inherits h = false) ->
+   st_meta (chase fx depth p hops st) p = st_meta st p).
+Proof.
+  intros fx depth p hops st. split; [intros t Ht; apply chase_meta_other; exact Ht|].
+  revert hops st. induction depth as [|dd IH]; intros hops st Hn; [destruct hops; reflexivity|].
+  destruct hops as [|h r]; [reflexivity|]. cbn [chase chase_used] in *.
+  assert (Hh : chase_inherits h = false) by (apply Hn; left; reflexivity). rewrite Hh.
+  destruct (h_err h || h_nx h || h_proof h || negb (h_more h)); [reflexivity|].
+  apply IH. intros h' Hin. apply Hn. right. exact Hin.
+Qed.
